@@ -6,7 +6,9 @@ CONSTANTS Urls,            \* gemini URLs (model values / strings)
           MaxMax,          \* max_redirects ranges over 0..MaxMax
           DevOffByOne      \* current code: refuses when Len(chain) >= max *before* fetching
 Answers == [k : {"final"}, to : {"-"}] \cup [k : {"redirect"}, to : Urls]
-           \cup [k : {"nongemini", "relative", "empty"}, to : {"-"}]
+           \cup [k : {"nongemini", "relative", "empty", "badtarget"}, to : {"-"}]
+\* "badtarget": a gemini:// target the client must not request (user-info, fragment): the fetch fails
+BadUrl == "-bad-"      \* a redirect target that is a gemini URL the client refuses to request
 VARIABLES G, max, follow, cur, chain, conns, requested, result
 vars == <<G, max, follow, cur, chain, conns, requested, result>>
 Init == /\ G \in [Urls -> Answers] /\ max \in 0..MaxMax /\ follow \in BOOLEAN
@@ -18,12 +20,14 @@ Hop ==
   /\ IF follow /\ InChain(cur) THEN result' = "error:loop" /\ UNCHANGED <<cur, chain, conns, requested>>
      ELSE IF follow /\ (IF DevOffByOne THEN Len(chain) >= max ELSE Len(chain) > max)
           THEN result' = "error:toomany" /\ UNCHANGED <<cur, chain, conns, requested>>
+     ELSE IF cur = BadUrl THEN result' = "error:badurl" /\ UNCHANGED <<cur, chain, conns, requested>>   \* refused before connecting
      ELSE /\ conns' = conns + 1 /\ requested' = requested \cup {cur}      \* _get_single(cur): one connection
           /\ LET a == G[cur] IN
              IF ~follow THEN result' = (IF a.k = "final" THEN "final" ELSE "redirect-returned") /\ UNCHANGED <<cur, chain>>
              ELSE CASE a.k = "final"     -> result' = "final" /\ UNCHANGED <<cur, chain>>
                     [] a.k = "redirect"  -> chain' = Append(chain, cur) /\ cur' = a.to /\ UNCHANGED result
                     [] a.k = "empty"     -> result' = "error:noredirecturl" /\ UNCHANGED <<cur, chain>>
+                    [] a.k = "badtarget" -> chain' = Append(chain, cur) /\ cur' = BadUrl /\ UNCHANGED result
                     [] OTHER             -> result' = "redirect-returned" /\ UNCHANGED <<cur, chain>>   \* non-gemini / relative: handed to the caller
 Next == Hop
 Spec == Init /\ [][Next]_vars /\ WF_vars(Hop)
@@ -40,6 +44,7 @@ Walk(u, seen, n) ==      \* outcome of following from u having taken n hops
        CASE a.k = "final" -> "final"
          [] a.k = "redirect" -> Walk(a.to, seen \cup {u}, n + 1)
          [] a.k = "empty" -> "error:noredirecturl"
+         [] a.k = "badtarget" -> IF n + 1 > max THEN "error:toomany" ELSE "error:badurl"
          [] OTHER -> "redirect-returned"
 Start == IF chain = <<>> THEN cur ELSE chain[1]
 Correct == (result # "running" /\ follow) => result = Walk(Start, {}, 0)
